@@ -334,4 +334,171 @@ theorem C12_ping_echo (srv : SrvSt) (conn : ConnSt) (a : Bytes) (rest : List Msg
     execSystem srv conn b!"ECHO" (B a :: rest) = some (.reply (newBulk a), conn, srv) := by
   constructor <;> simp [execSystem, nextStringRaw, B, msgStr]
 
+/-! ## MSET / MSETNX: every pair is stored; MSETNX stores all pairs or none -/
+
+/-- the store after setting the pairs one after the other -/
+def putAll (st : Store) (kvs : List (Bytes × Bytes)) : Store := kvs.foldl (fun s p => s.put p.1 (.str p.2)) st
+
+theorem putAll_get_other (kvs : List (Bytes × Bytes)) (st : Store) (k : Bytes) (h : ∀ p ∈ kvs, p.1 ≠ k) :
+    (putAll st kvs).get k = st.get k := by
+  induction kvs generalizing st with
+  | nil => rfl
+  | cons p ps ih =>
+    simp only [putAll, List.foldl] at ih ⊢
+    rw [ih _ (fun q hq => h q (by simp [hq]))]
+    exact Store.get_put_other st p.1 k _ (fun hk => h p (by simp) hk.symm)
+
+/-- with pairwise distinct keys every pair is readable afterwards -/
+theorem putAll_get_mem (kvs : List (Bytes × Bytes)) (st : Store) (hd : (kvs.map Prod.fst).Nodup) (k v : Bytes) (h : (k, v) ∈ kvs) :
+    (putAll st kvs).get k = some (.str v) := by
+  induction kvs generalizing st with
+  | nil => simp at h
+  | cons p ps ih =>
+    simp only [List.map, List.nodup_cons] at hd
+    simp only [putAll, List.foldl]
+    rcases List.mem_cons.mp h with rfl | hm
+    · have := putAll_get_other ps (st.put k (.str v)) k (fun q hq heq => hd.1 (by
+        simp only [List.mem_map]; exact ⟨q, hq, heq⟩))
+      simp only [putAll] at this
+      rw [this]; exact Store.get_put_same st k _
+    · exact ih _ hd.2 hm
+
+theorem callEach_set (kvs : List (Bytes × Bytes)) (st : Store) (acc : List Msg → UProg Out) :
+    ∃ ms, UProg.runH (refHandle sc) (callEach (fun (p : Bytes × Bytes) => HCall.set p.1 p.2 {}) kvs acc) st =
+      UProg.runH (refHandle sc) (acc ms) (putAll st kvs) := by
+  induction kvs generalizing st acc with
+  | nil => exact ⟨[], rfl⟩
+  | cons p ps ih =>
+    obtain ⟨ms, h⟩ := ih (st.put p.1 (.str p.2)) (fun ms => acc (okMsg :: ms))
+    refine ⟨okMsg :: ms, ?_⟩
+    simp only [callEach, UProg.runH, refHandle, okRes, putAll, List.foldl] at h ⊢
+    simpa using h
+
+/-- MSET: answers OK and every pair is stored (pairs in the order the framework walks them) -/
+theorem C12_mset (kvs : List (Bytes × Bytes)) (st : Store) :
+    UProg.runH (refHandle sc) (callEach (fun (p : Bytes × Bytes) => HCall.set p.1 p.2 {}) kvs fun _ => replyP okMsg) st =
+      (some (.reply okMsg), putAll st kvs) := by
+  obtain ⟨ms, h⟩ := callEach_set sc kvs st (fun _ => replyP okMsg)
+  rw [h]; rfl
+
+/-- MSETNX, some key already holds a string: the reply is 0 and **nothing** is written — not even the pairs in front of
+the existing key (the probes run before the first write) -/
+theorem C12_msetnx_existing_key (pre post : List (Bytes × Bytes)) (k v old : Bytes) (st : Store) (cont : UProg Out)
+    (hpre : ∀ p ∈ pre, st.get p.1 = none) (hk : st.get k = some (.str old)) :
+    UProg.runH (refHandle sc) (msetnxProbe (pre ++ (k, v) :: post) cont) st = (some (.reply (newInteger 0)), st) := by
+  induction pre with
+  | nil => simp [msetnxProbe, UProg.runH, refHandle, hk, okRes, newBulk, replyP]
+  | cons p ps ih =>
+    obtain ⟨pk, pv⟩ := p
+    have h1 : st.get pk = none := hpre (pk, pv) (by simp)
+    have := ih (fun q hq => hpre q (by simp [hq]))
+    simp only [List.cons_append, msetnxProbe, UProg.runH, refHandle, h1, okRes, newNil]
+    exact this
+
+theorem msetnxProbe_all_missing (kvs : List (Bytes × Bytes)) (st : Store) (cont : UProg Out)
+    (h : ∀ p ∈ kvs, st.get p.1 = none) :
+    UProg.runH (refHandle sc) (msetnxProbe kvs cont) st = UProg.runH (refHandle sc) cont st := by
+  induction kvs with
+  | nil => rfl
+  | cons p ps ih =>
+    obtain ⟨pk, pv⟩ := p
+    have h1 : st.get pk = none := h (pk, pv) (by simp)
+    simp only [msetnxProbe, UProg.runH, refHandle, h1, okRes, newNil]
+    exact ih (fun q hq => h q (by simp [hq]))
+
+theorem callEach_setnx (kvs : List (Bytes × Bytes)) (st : Store) (acc : List Msg → UProg Out)
+    (hd : (kvs.map Prod.fst).Nodup) (h : ∀ p ∈ kvs, st.get p.1 = none) :
+    ∃ ms, UProg.runH (refHandle sc) (callEach (fun (p : Bytes × Bytes) => HCall.set p.1 p.2 { nx := true }) kvs acc) st =
+      UProg.runH (refHandle sc) (acc ms) (putAll st kvs) := by
+  induction kvs generalizing st acc with
+  | nil => exact ⟨[], rfl⟩
+  | cons p ps ih =>
+    simp only [List.map, List.nodup_cons] at hd
+    have h1 : st.get p.1 = none := h p (by simp)
+    have hrest : ∀ q ∈ ps, (st.put p.1 (.str p.2)).get q.1 = none := by
+      intro q hq
+      rw [Store.get_put_other st p.1 q.1 _ (fun heq => hd.1 (by simp only [List.mem_map]; exact ⟨q, hq, heq⟩))]
+      exact h q (by simp [hq])
+    obtain ⟨ms, hh⟩ := ih (st.put p.1 (.str p.2)) (fun ms => acc (newInteger 1 :: ms)) hd.2 hrest
+    refine ⟨newInteger 1 :: ms, ?_⟩
+    simp only [callEach, UProg.runH, refHandle, h1, intRes, okRes, putAll, List.foldl] at hh ⊢
+    simpa using hh
+
+/-- MSETNX, no key exists: the reply is 1 and every pair is stored -/
+theorem C12_msetnx_all_missing (kvs : List (Bytes × Bytes)) (st : Store)
+    (hd : (kvs.map Prod.fst).Nodup) (h : ∀ p ∈ kvs, st.get p.1 = none) :
+    UProg.runH (refHandle sc) (msetnxProbe kvs <|
+        callEach (fun (p : Bytes × Bytes) => HCall.set p.1 p.2 { nx := true }) kvs fun _ => replyP (newInteger 1)) st =
+      (some (.reply (newInteger 1)), putAll st kvs) := by
+  rw [msetnxProbe_all_missing sc kvs st _ h]
+  obtain ⟨ms, hh⟩ := callEach_setnx sc kvs st (fun _ => replyP (newInteger 1)) hd h
+  rw [hh]; rfl
+
+/-- the key lists the framework hands to these loops have pairwise distinct keys (a Go map) -/
+theorem mapOfPairs_nodup (ps : List (Bytes × Bytes)) : ((mapOfPairs ps).map Prod.fst).Nodup := by
+  induction ps with
+  | nil => simp [mapOfPairs]
+  | cons p ps ih =>
+    obtain ⟨k, v⟩ := p
+    simp only [mapOfPairs]
+    split
+    · rename_i v' _
+      simp only [List.map, List.nodup_cons, List.mem_map, not_exists, not_and]
+      refine ⟨fun q hq heq => ?_, ?_⟩
+      · simp [List.mem_filter] at hq; exact hq.2 heq
+      · exact List.Nodup.sublist (List.Sublist.map _ (List.filter_sublist)) ih
+    · rename_i hnone
+      simp only [List.map, List.nodup_cons, List.mem_map, not_exists, not_and]
+      refine ⟨fun q hq heq => ?_, ih⟩
+      have : (mapOfPairs ps).lookup k ≠ none := by
+        rw [← heq]
+        intro hl
+        have := List.lookup_eq_none_iff.mp hl q hq
+        simp at this
+      exact this hnone
+
+/-! ## The sugar commands that nest another command: STRLEN, SUBSTR, HEXISTS, HSTRLEN, HLEN -/
+
+theorem execUser_get (pf : FloatOracle) (srv : SrvSt) (conn : ConnSt) (hh : srv.hasHandler = true) (args : List Msg) :
+    execUser pf srv conn b!"GET" args = some (gated conn b!"GET" (shapeS .get args).lift) := by
+  have hu : upper b!"GET" = b!"GET" := by decide
+  simp [execUser, hu, userTable, List.lookup, hh]
+
+theorem execUser_hget (pf : FloatOracle) (srv : SrvSt) (conn : ConnSt) (hh : srv.hasHandler = true) (args : List Msg) :
+    execUser pf srv conn b!"HGET" args = some (gated conn b!"HGET" (shapeSS .hget args).lift) := by
+  have hu : upper b!"HGET" = b!"HGET" := by decide
+  simp [execUser, hu, userTable, List.lookup, hh]
+
+/-- STRLEN: the length of the stored string; 0 for a key that does not exist; the store is untouched -/
+theorem C12_strlen (pf : FloatOracle) (srv : SrvSt) (conn : ConnSt) (hh : srv.hasHandler = true) (ha : conn.authorized = true)
+    (k : Bytes) (st : Store) :
+    (Prog.runH conn (refHandle sc) (execStrLen pf srv conn [B k]) st).2 =
+      (some (.reply (newInteger (match st.get k with | some (.str v) => v.length | _ => 0))), st) := by
+  simp only [execStrLen, nestedCall, execUser_get pf srv conn hh, gated, ha]
+  simp only [shapeS, withArgs, nextString_B, callRet, UProg.lift, Prog.andFinish, Prog.bind, Prog.runH, refHandle]
+  cases hg : st.get k with
+  | none => simp [Prog.bind, Prog.runH, refHandle, hg, okRes, newNil, outOf, msgStr, nreply]
+  | some v => cases v <;> simp [Prog.bind, Prog.runH, refHandle, hg, okRes, newNil, newBulk, outOf, msgStr, nreply]
+
+/-- HEXISTS: 1 iff the hash has the field -/
+theorem C12_hexists_hstrlen (pf : FloatOracle) (srv : SrvSt) (conn : ConnSt) (hh : srv.hasHandler = true) (ha : conn.authorized = true)
+    (h f : Bytes) (st : Store) (r : HRes) (st' : Store) (hr : refHandle sc (.hget h f) st = (r, st')) (he : r.err = none)
+    (hm : r.msg = newNil ∨ ∃ v, r.msg = newBulk v) :
+    (Prog.runH conn (refHandle sc) (execHExists pf srv conn [B h, B f]) st).2 =
+      (some (.reply (newInteger (match r.msg with | .bulk none => 0 | _ => 1))), st') ∧
+    (Prog.runH conn (refHandle sc) (execHStrLen pf srv conn [B h, B f]) st).2 =
+      (some (.reply (newInteger (match r.msg with | .bulk (some v) => v.length | _ => 0))), st') := by
+  constructor
+  · simp only [execHExists, nestedCall, execUser_hget pf srv conn hh, gated, ha]
+    simp only [shapeSS, withArgs, nextString_B, callRet, UProg.lift, Prog.andFinish, Prog.bind, Prog.runH, hr]
+    rcases hm with hm | ⟨v, hm⟩ <;> simp [Prog.bind, Prog.runH, hr, outOf, he, hm, newNil, newBulk, msgStr, nreply]
+  · simp only [execHStrLen, nestedCall, execUser_hget pf srv conn hh, gated, ha]
+    simp only [shapeSS, withArgs, nextString_B, callRet, UProg.lift, Prog.andFinish, Prog.bind, Prog.runH, hr]
+    rcases hm with hm | ⟨v, hm⟩ <;> simp [Prog.bind, Prog.runH, hr, outOf, he, hm, newNil, newBulk, msgStr, nreply]
+
+/-- SUBSTR is GETRANGE (the same executor is run on the same arguments) -/
+theorem C12_substr_is_getrange (pf : FloatOracle) (srv : SrvSt) (conn : ConnSt) (args : List Msg) :
+    ∃ ex, nested1 pf srv conn b!"SUBSTR" = some ex ∧ ex args = nestedCall pf srv conn b!"GETRANGE" args .ret := by
+  exact ⟨fun args => nestedCall pf srv conn b!"GETRANGE" args .ret, by simp [nested1], rfl⟩
+
 end GoRedis
